@@ -48,6 +48,7 @@ type CPInput struct {
 	Canaries     []bool `json:"canaries,omitempty"` // finalizer present on each owned canary Deployment
 	// canary style: pod template / patch metadata shapes, and the stable Deployment's status
 	TemplateAnnos bool `json:"template_annos,omitempty"`
+	StableGone    bool `json:"stable_gone,omitempty"` // canary style, finalize only: the stable Deployment was deleted before the release finalizes
 	StaleCanaries bool `json:"stale_canaries,omitempty"` // finalize only: the canary Deployments carry an older template than the stable one (after a rollback or a further release)
 	PatchLabels   bool `json:"patch_labels,omitempty"`
 	PatchAnnos    bool `json:"patch_annos,omitempty"`
@@ -104,6 +105,7 @@ func (ctlplaneEngine) Gen(r *rand.Rand, idx int, tier string) any {
 		}
 		in.TemplateAnnos, in.PatchLabels, in.PatchAnnos = chance(r, 50), chance(r, 40), chance(r, 40)
 		in.StaleCanaries = in.Op == "finalize" && chance(r, 35)
+		in.StableGone = in.Op == "finalize" && chance(r, 12)
 		in.WaitResume = chance(r, 40)
 		n := pick(r, 0, 3, 5)
 		in.Replicas = n
@@ -216,6 +218,9 @@ func (ctlplaneEngine) Run(inAny any) (res any) {
 			}
 			objs = append(objs, c)
 		}
+	}
+	if in.StableGone {
+		objs = objs[1:] // the canary Deployments stay behind with their finalizer
 	}
 	base := fake.NewClientBuilder().WithScheme(FullScheme()).WithObjects(objs...).Build()
 	cli := &faultClient{Client: base, verb: in.FailVerb, at: in.FailAt, count: map[string]int{}}
@@ -342,7 +347,7 @@ func (ctlplaneEngine) Coq(inAny any, obsAny any) string {
 	if in.Op == "finalize" {
 		op = "OpFinalize"
 	}
-	input := emit.App("Build_cp_in", op, emit.Bool(in.Partitioned), emit.Bool(in.WaitResume), fault, st)
+	input := emit.App("Build_cp_in", op, emit.Bool(in.Partitioned), emit.Bool(in.WaitResume), fault, st, emit.Bool(in.StableGone))
 	o := emit.App("Build_cp_obs", emit.Bool(obs.Panic != ""), emit.Bool(obs.Err != ""), emit.Bool(obs.Claimed), emit.Bool(obs.Paused), emit.Bool(obs.Recreate),
 		emit.Bool(obs.StrategyAnno), emit.Bool(obs.Label), bools(obs.Canaries), emit.Bool(obs.CreatedOK))
 	return emit.Pair(input, o)
